@@ -124,7 +124,8 @@ class Resolver:
             elif side == "FULL":
                 columns = list(dict.fromkeys(left + right))
             elif kind == "INNER":
-                columns = list(dict.fromkeys(left).keys() & dict.fromkeys(right).keys())
+                right_columns = set(right)
+                columns = [column for column in dict.fromkeys(left) if column in right_columns]
         else:
             columns = set_op.named_selects
 
